@@ -100,6 +100,22 @@ theorem C02_address_aligned_contained (reqs : List Req) (hv : ∀ r ∈ reqs, r.
   have h3 := C02_contained reqs def_ hb m hm v hvm d hd
   exact ⟨Nat.dvd_add (Nat.dvd_trans h2 hbase) h1, by omega⟩
 
+/-- the data of one variant fit side by side: the sum of their sizes never exceeds the capacity -/
+theorem C02_sizes_sum_le_capacity (reqs : List Req) (hv : ∀ r ∈ reqs, r.valid) (def_ : Definition)
+    (hb : (run reqs).build = some def_) (m : Nat) (hm : def_.maxSize = some m) :
+    ∀ v ∈ def_.variants, (v.map (sz def_.defs)).sum ≤ m := by
+  intro v hvm
+  have hdef : def_ = ⟨(run reqs).defs, (run reqs).variants⟩ := by
+    unfold BState.build at hb
+    split at hb
+    · exact (Option.some.inj hb).symm
+    · simp at hb
+  have hs : v.Pairwise (fun a b => off def_.defs a + sz def_.defs a ≤ off def_.defs b) := by
+    rw [hdef] at hvm ⊢; exact C02_order reqs hv v hvm
+  have := sum_sizes_le def_.defs m v 0 hs (fun d hd => C02_contained reqs def_ hb m hm v hvm d hd)
+    (fun _ _ => Nat.zero_le _) (Nat.zero_le _)
+  simpa using this
+
 /-- non-vacuity of the premises of `C02_address_aligned_contained`: a concrete valid history builds,
     has power-of-two alignments and a finite capacity -/
 example : (∀ r ∈ Ex.h1, r.valid) ∧ ((run Ex.h1).build.bind (·.maxSize)) = some 24 ∧
